@@ -6,6 +6,8 @@ compute_mc_paths_giles pointwise (one level), fail-closed like the rest of py2co
                                                           the hand model Model/Alloc.v supplies  S = sum_k sqrt(V_k * C_k))
   np.ceil(X)                  -> Rceil X
   X.astype(int)               -> X                       (an integer-valued real)
+  np.all(B)                   -> B                       (pointwise reading of the vector test)
+  raise ValueError(...)       -> fn["on_raise"]          (error value -1: sample sizes are never negative)
 
 criteria_giles (fn["list_param"] = "ml"): the array of level means is a Coq `list R`, indexing stays visible:
   ml[-k]                      -> nth (length ml - k) ml 0   (numpy raises IndexError when k > len(ml))
@@ -58,6 +60,8 @@ class Ext:
                 and py2coq.src(e.left) == f"len({lp})" and isinstance(e.comparators[0], ast.Constant) \
                 and isinstance(e.comparators[0].value, int):
             return f"(Nat.leb {e.comparators[0].value} (length {lp}))"
+        if self.fn.get("giles_core") and isinstance(e, ast.Call) and py2coq.src(e.func) == "np.all" and len(e.args) == 1 and not e.keywords:
+            return py2coq.bexpr(ctx, e.args[0])
         return None
 
     def stmt(self, ctx, s, rest, tail, on_raise):
